@@ -99,7 +99,7 @@ int MplexEntry::SetCountVal(const char *count_val)
     r = gd_alter_entry(D->D, E.field, &E, 0);
 
     if (!r)
-      r = gd_get_constant(D->D, count_val, GD_UINT16, &E.u.mplex.count_val);
+      r = gd_cxx_get_scalar(D->D, count_val, GD_UINT16, &E.u.mplex.count_val);
   }
   
   dreturn("%i", r);
@@ -118,7 +118,7 @@ int MplexEntry::SetPeriod(const char *period)
     r = gd_alter_entry(D->D, E.field, &E, 0);
 
     if (!r)
-      r = gd_get_constant(D->D, period, GD_UINT16, &E.u.mplex.period);
+      r = gd_cxx_get_scalar(D->D, period, GD_UINT16, &E.u.mplex.period);
   }
   
   dreturn("%i", r);
